@@ -102,6 +102,7 @@ def check_clause(ctx, rule, fnrec, inst, props, required, desc, why, line=None):
 
 def run(ctx):
     _run_main(ctx)
+    client_cache_rebuilt(ctx)
     client_fields_parsed_from_their_attributes(ctx)
 
 
@@ -670,3 +671,12 @@ def client_fields_parsed_from_their_attributes(ctx):
             "origins": {"OAuth2RsOrigin"}, "opaque_origins": {"OAuth2RsOrigin"}, "redirect_uris": {"OAuth2RsOrigin"}})],
         "authorisation requests are then judged against terms the administrator did not register (e.g. supplementary scopes become requestable)")
     ctx.floor("K5-client-fields", "client fields traced to their attributes", n, 6)
+
+
+# ---------------------------------------------------------------------------------------------------------------------
+# ... and the loaded clients are the registered ones only if reload rebuilds the set wholesale (rules/lib/x_cache.py).
+
+def client_cache_rebuilt(ctx):
+    from .lib.x_cache import check_rebuilt_wholesale
+    check_rebuilt_wholesale(ctx, LIB, "K4-client-cache-rebuilt", "kanidmd_lib::idm::oauth2::Oauth2ResourceServersWriteTransaction::<'_>::reload",
+                            "a client whose redirect URIs or scope maps were changed keeps being judged on its old terms")
